@@ -6,9 +6,6 @@ section
 open Scalar Model Spec
 variable {α : Type} [Scalar α] {μ : Type} [Mem μ α] [LawfulMem μ α]
 
-theorem valV_zero (c s : α) (n : Nat) : valV c s n 0 = col0 c s n 1 := valV_ofNat c s n 0
-theorem valV_one (c s : α) (n : Nat) : valV c s n 1 = col0 c s n 1 := valV_ofNat c s n 1
-
 /-! ### recursion equations of `valW` / `valV` in the shape of `_step_5` -/
 
 theorem valV_step5_zero (c s : α) (n : Nat) :
@@ -40,7 +37,7 @@ theorem valW_step5mid (c s : α) (n q i : Nat) (h2 : q + i < n) :
   | succ k =>
     rw [show (-((k+1 : Nat) : Int) - 1) = -((k+2 : Nat) : Int) by omega,
         show (-((k+1 : Nat) : Int) + 1) = -(k : Int) by omega,
-        valW_neg, valW_neg, valW_neg]
+        valW_neg, valW_neg, valW_neg, valW_neg]
     show (if k + 1 + i < n then _ else _) = _
     rw [if_pos h2, Nat.add_sub_cancel_left]
 
@@ -178,6 +175,137 @@ theorem s5col_spec (c s : α) (n q : Nat) (h2 : q + 1 ≤ n) (st : μ)
     unfold s5col s5top
     rw [rd_wr_ne _ _ (hl2 n (by omega) (Nat.le_refl _)), kB _ (fun m hm1 hm2 => hl2 m hm1 (by omega))]
     exact f1 l hl1
+
+/-! ### one row -/
+
+theorem s5row_spec (c s : α) (n P : Nat) (st : μ)
+    (h0 : ∀ m, m ≤ n → rd st (.hw n 0 m) = valW c s n 0 m)
+    (h1 : ∀ m, 1 ≤ m → m ≤ n → rd st (.hw n 1 m) = valW c s n 1 m)
+    (hv0 : 1 ≤ n → rd st (.hv n 0) = valV c s n 0)
+    (hv1 : 1 ≤ n → rd st (.hv n 1) = valV c s n 1) :
+    (∀ q m, 1 ≤ q → q ≤ min n P → q ≤ m → m ≤ n →
+        rd (s5row (α := α) P n st) (.hw n (-(q : Int)) m) = valW c s n (-(q : Int)) m)
+    ∧ (∀ q, 1 ≤ q → q ≤ min n P →
+        rd (s5row (α := α) P n st) (.hv n (-(q : Int))) = valV c s n (-(q : Int)))
+    ∧ (∀ l, (∀ q, 1 ≤ q → q ≤ min n P → l ≠ .hv n (-(q : Int)) ∧ ∀ m, q ≤ m → m ≤ n → l ≠ .hw n (-(q : Int)) m) →
+        rd (α := α) (s5row (α := α) P n st) l = rd st l) := by
+  let R : Nat → μ → Prop := fun j st' =>
+    (∀ q m, q ≤ j → q ≤ m → m ≤ n → rd st' (.hw n (-(q : Int)) m) = valW c s n (-(q : Int)) m)
+    ∧ (∀ m, 1 ≤ m → m ≤ n → rd st' (.hw n 1 m) = valW c s n 1 m)
+    ∧ (∀ q, q ≤ j → 1 ≤ n → rd st' (.hv n (-(q : Int))) = valV c s n (-(q : Int)))
+    ∧ (1 ≤ n → rd st' (.hv n 1) = valV c s n 1)
+    ∧ (∀ l, (∀ q, 1 ≤ q → q ≤ j → l ≠ .hv n (-(q : Int)) ∧ ∀ m, q ≤ m → m ≤ n → l ≠ .hw n (-(q : Int)) m) →
+        rd (α := α) st' l = rd st l)
+  have key : ∀ cnt, cnt ≤ min n P → R cnt (loopN cnt (fun q st => s5col (α := α) n q st) st) := by
+    intro cnt hcnt
+    apply loopN_inv R
+    · refine ⟨?_, h1, ?_, hv1, fun l _ => rfl⟩
+      · intro q m hq hqm hm
+        have : q = 0 := by omega
+        subst this; exact h0 m hm
+      · intro q hq hn
+        have : q = 0 := by omega
+        subst this; exact hv0 hn
+    · intro j st' hj ⟨rA, r1, rV, rV1, rF⟩
+      have e2 : (-(j : Int) - 1) = -((j+1 : Nat) : Int) := by omega
+      have hn : j + 1 ≤ n := by omega
+      obtain ⟨cA, cV, cF⟩ := s5col_spec c s n j hn st'
+        (fun m hm1 hm0 hm2 => by
+          cases j with
+          | zero => exact r1 m hm0 hm2
+          | succ i =>
+            rw [show (-((i+1 : Nat) : Int) + 1) = -(i : Int) by omega]
+            exact rA i m (by omega) (by omega) hm2)
+        (fun m hm1 hm2 => rA j m (Nat.le_refl _) hm1 hm2)
+        (rV j (Nat.le_refl _) (by omega))
+        (fun _ => rV1 (by omega))
+      rw [e2] at cA cV cF
+      refine ⟨?_, ?_, ?_, ?_, ?_⟩
+      · intro q m hq hqm hm
+        by_cases hq2 : q = j + 1
+        · subst hq2; exact cA m hqm hm
+        · rw [cF _ hw_ne_hv (fun _ _ _ => hw_ne_of_col (by omega))]
+          exact rA q m (by omega) hqm hm
+      · intro m hm1 hm2
+        rw [cF _ hw_ne_hv (fun _ _ _ => hw_ne_of_col (by omega))]
+        exact r1 m hm1 hm2
+      · intro q hq hn1
+        by_cases hq2 : q = j + 1
+        · subst hq2; exact cV
+        · rw [cF _ (hv_ne_of_k (by omega)) (fun _ _ _ => hv_ne_hw)]
+          exact rV q (by omega) hn1
+      · intro hn1
+        rw [cF _ (hv_ne_of_k (by omega)) (fun _ _ _ => hv_ne_hw)]
+        exact rV1 hn1
+      · intro l hl
+        rw [cF l (hl (j+1) (by omega) (by omega)).1 (fun m hm1 hm2 => (hl (j+1) (by omega) (by omega)).2 m hm1 hm2)]
+        exact rF l (fun q hq1 hq2 => hl q hq1 (by omega))
+  obtain ⟨kA, _, kV, _, kF⟩ := key (min n P) (Nat.le_refl _)
+  exact ⟨fun q m hq1 hq2 hqm hm => kA q m hq2 hqm hm,
+         fun q hq1 hq2 => kV q hq2 (by omega),
+         fun l hl => kF l hl⟩
+
+/-! ### the whole step -/
+
+/-- Step 5 writes exactly the cells (n, -q, m) with n ≤ L, 1 ≤ q ≤ min(n,P), q ≤ m ≤ n (value `valW c s n (-q) m`)
+    and the scratch cells `hv n (-q)` for the same n, q (value `valV c s n (-q)`), provided the columns
+    m' = 0, 1 and `hv n 0`, `hv n 1` hold their `valW`/`valV` values; every other cell is unchanged. -/
+theorem step5_refines (L P : Nat) (c s : α) (st : μ) (hL : 0 < L) (hP : 0 < P)
+    (h0 : ∀ n m, n ≤ L → m ≤ n → rd st (.hw n 0 m) = valW c s n 0 m)
+    (h1 : ∀ n m, 1 ≤ n → n ≤ L → 1 ≤ m → m ≤ n → rd st (.hw n 1 m) = valW c s n 1 m)
+    (hv0 : ∀ n, 1 ≤ n → n ≤ L → rd st (.hv n 0) = valV c s n 0)
+    (hv1 : ∀ n, 1 ≤ n → n ≤ L → rd st (.hv n 1) = valV c s n 1) :
+    (∀ n q m, n ≤ L → 1 ≤ q → q ≤ min n P → q ≤ m → m ≤ n →
+        rd (step5 (α := α) L P st) (.hw n (-(q : Int)) m) = valW c s n (-(q : Int)) m)
+    ∧ (∀ n q, n ≤ L → 1 ≤ q → q ≤ min n P →
+        rd (step5 (α := α) L P st) (.hv n (-(q : Int))) = valV c s n (-(q : Int)))
+    ∧ (∀ l, (∀ n q, n ≤ L → 1 ≤ q → q ≤ min n P →
+              l ≠ .hv n (-(q : Int)) ∧ ∀ m, q ≤ m → m ≤ n → l ≠ .hw n (-(q : Int)) m) →
+        rd (α := α) (step5 (α := α) L P st) l = rd st l) := by
+  rw [step5_eq, if_neg (by omega)]
+  let S : Nat → μ → Prop := fun r st' =>
+    (∀ n q m, n < r → 1 ≤ q → q ≤ min n P → q ≤ m → m ≤ n →
+        rd st' (.hw n (-(q : Int)) m) = valW c s n (-(q : Int)) m)
+    ∧ (∀ n q, n < r → 1 ≤ q → q ≤ min n P → rd st' (.hv n (-(q : Int))) = valV c s n (-(q : Int)))
+    ∧ (∀ l, (∀ n q, n < r → 1 ≤ q → q ≤ min n P →
+              l ≠ .hv n (-(q : Int)) ∧ ∀ m, q ≤ m → m ≤ n → l ≠ .hw n (-(q : Int)) m) →
+        rd (α := α) st' l = rd st l)
+  have key : ∀ cnt, cnt ≤ L + 1 → S cnt (loopN cnt (s5row (α := α) P) st) := by
+    intro cnt hcnt
+    apply loopN_inv S
+    · exact ⟨fun n q m h1 => by omega, fun n q h1 => by omega, fun l _ => rfl⟩
+    · intro r st' hr ⟨sA, sV, sF⟩
+      obtain ⟨wA, wV, wF⟩ := s5row_spec c s r P st'
+        (fun m hm => by
+          rw [sF _ (fun n q _ _ _ => ⟨hw_ne_hv, fun _ _ _ => hw_ne_of_col (by omega)⟩)]
+          exact h0 r m (by omega) hm)
+        (fun m hm1 hm2 => by
+          rw [sF _ (fun n q _ _ _ => ⟨hw_ne_hv, fun _ _ _ => hw_ne_of_col (by omega)⟩)]
+          exact h1 r m (by omega) (by omega) hm1 hm2)
+        (fun hr1 => by
+          rw [sF _ (fun n q _ _ _ => ⟨hv_ne_of_k (by omega), fun _ _ _ => hv_ne_hw⟩)]
+          exact hv0 r hr1 (by omega))
+        (fun hr1 => by
+          rw [sF _ (fun n q _ _ _ => ⟨hv_ne_of_k (by omega), fun _ _ _ => hv_ne_hw⟩)]
+          exact hv1 r hr1 (by omega))
+      refine ⟨?_, ?_, ?_⟩
+      · intro n q m hn hq1 hq2 hqm hm
+        by_cases hnr : n = r
+        · subst hnr; exact wA q m hq1 hq2 hqm hm
+        · rw [wF _ (fun _ _ _ => ⟨hw_ne_hv, fun _ _ _ => hw_ne_of_n hnr⟩)]
+          exact sA n q m (by omega) hq1 hq2 hqm hm
+      · intro n q hn hq1 hq2
+        by_cases hnr : n = r
+        · subst hnr; exact wV q hq1 hq2
+        · rw [wF _ (fun _ _ _ => ⟨hv_ne_of_n hnr, fun _ _ _ => hv_ne_hw⟩)]
+          exact sV n q (by omega) hq1 hq2
+      · intro l hl
+        rw [wF l (fun q hq1 hq2 => hl r q (by omega) hq1 hq2)]
+        exact sF l (fun n q hn hq1 hq2 => hl n q (by omega) hq1 hq2)
+  obtain ⟨kA, kV, kF⟩ := key (L + 1) (Nat.le_refl _)
+  exact ⟨fun n q m hn => kA n q m (by omega),
+         fun n q hn => kV n q (by omega),
+         fun l hl => kF l (fun n q hn => hl n q (by omega))⟩
 
 end
 end HRefine
